@@ -47,6 +47,7 @@ static int64_t partner(int64_t a, int maxbits = 63)
     case 0: return a; case 1: return clampf(-(i128)a); case 2: return clampf((i128)a + 1); case 3: return clampf((i128)a - 1);
     case 4: return clampf(-(i128)a + (int64_t)below(5) - 2); case 5: return clampf((i128)a * 65536); case 6: return a / 65536;
     case 7: return clampf((i128)INT64_MAX - a + (int64_t)below(5) - 2); case 8: return clampf(-(i128)INT64_MAX - a + (int64_t)below(5) - 2);
+    case 9: { int64_t r = (int64_t)((uint64_t)a ^ (1ULL << below(63))); return r == INT64_MIN ? a : r; }        // exactly one bit apart
     default: return value(maxbits);
     }
   }
